@@ -755,8 +755,15 @@ func RuleR2(c *Ctx) {
 					if !cl.loop.Blocks[cand.at] || cl.step != 1 || cl.op != token.LSS {
 						continue
 					}
-					vP := pc.leafPoly(cl.phi)
-					vKey := pc.leaf(core.StripConv(cl.phi))
+					// the counter as the body sees it; in a `for v := range xs` loop that is the header phi plus one
+					vP := pc.of(cl.phi, 0)
+					under := core.StripConv(cl.phi)
+					if inc, isInc := under.(*ssa.BinOp); isInc && inc.Op == token.ADD {
+						if _, isPhi := core.StripConv(inc.X).(*ssa.Phi); isPhi {
+							under = core.StripConv(inc.X)
+						}
+					}
+					vKey := pc.leaf(under)
 					if !lo.mentions(vKey) {
 						continue
 					}
